@@ -722,8 +722,11 @@ class ExcludeRegionState(object):  # pylint: disable=too-many-instance-attribute
             returnCommands = self.exitExcludedRegion(cmd)
         elif (deltaE != 0):
             # Recover any retraction recorded from the excluded region before the next
-            # extrusion occurs
+            # extrusion occurs.  The recovery happens before this move, so it has to be generated
+            # relative to the extruder position prior to the move.
+            eAxis.current = priorE
             returnCommands = self.recoverRetractionIfNeeded(cmd, False)
+            eAxis.current = extruderPosition
         else:
             returnCommands = [cmd]
 
